@@ -201,4 +201,7 @@ pub struct RunResult {
     pub sample: Option<serde_json::Value>,
     pub peak: u64,
     pub cpu_us: u64,
+    /// which part of the index space the run belongs to (enumerated sweep / seeded search)
+    #[serde(default)]
+    pub phase: String,
 }
